@@ -4,7 +4,7 @@
    bdd_every_result, list_formula_is_empty, list_inhabited); the mapping emptiness procedure is judged by enumeration of
    values on the implementation (see DESIGN.md). *)
 From Beff Require Import Model.Subtype Model.ListSpec Proofs.C05 Proofs.SemOps Proofs.ListSoundTop Proofs.ListCompleteTop.
-From Beff Require Import Model.MappingEmpty Proofs.MappingSound.
+From Beff Require Import Model.MappingEmpty Proofs.MappingSound Model.MappingEmptyIx Proofs.MappingIxBridge.
 
 (* "two types are reported equivalent exactly when each is assignable to the other" *)
 Theorem C05_same_type_is_mutual_assignability :
@@ -185,6 +185,13 @@ Proof.
   - apply flat_object_clause_complete; [exact Hp|]. eapply Forall_impl; [|exact Hn]. intros a [_ H]. exact H.
 Qed.
 
+(* ---- the decider that is tied to the engine also on atoms with `string` index signatures (Model/MappingEmptyIx.v x_check) is, on atoms
+        without index signature, the function the two theorems above are about ---- *)
+Theorem C05_index_aware_decider_agrees_on_index_free_atoms :
+  forall is_empty negs pos,
+    x_check is_empty (map plain negs) (plain pos) = check_mapping_empty is_empty negs pos.
+Proof. exact x_check_plain. Qed.
+
 (* non-vacuity: {a: string, b?: number} against {a: string | number} (covered) and against {a: string, b: number} (b may be absent) *)
 Definition c05_str : semtype := mkSem (stag_code TgString) [].
 Definition c05_num : semtype := mkSem (stag_code TgNumber) [].
@@ -212,3 +219,4 @@ Print Assumptions C05_list_only_types_not_assignable_has_a_separating_value.
 Print Assumptions C05_list_only_types_assignability_is_inclusion.
 Print Assumptions C05_flat_object_clause_empty_iff_covered.
 Print Assumptions C05_flat_object_conjunction_empty_iff_covered.
+Print Assumptions C05_index_aware_decider_agrees_on_index_free_atoms.
